@@ -270,10 +270,13 @@ PROPS = {
                       "(2) storage written by Context::persist loads back to exactly the persisted count, poll interval and last-contact time at microsecond precision, never a mixture "
                       "(C08_rebuilt_state_is_last_persisted, C08_time_precision); the counter saturates.  Model tied to the code by trace equality on scripted runs (storage operations with success flags, "
                       "clock readings, policy arguments, schedule/protocol/result/state events); the monitor also runs on every implementation trace.",
-        "level_note": "Proved for the model, unbounded, except: crash consistency at every interaction is not a theorem - atomic commit is the Storage trait's contract (trusted base), and the harness does not "
-                      "inject crashes; the persist after a ping is compared by trace equality only.  Model = code is sampled on scripted runs.",
+        "level_note": "Proved for the model, unbounded.  Crash consistency is composed of three parts: the monitor (each commit of a finished check carries exactly the machine's values, one commit per block - on model "
+                      "traces by theorem, on implementation traces at run time); atomic commit, which is the Storage trait's contract (trusted base; the harness's storage keeps a pending and a committed view); and the "
+                      "rebuild: for one history in five the harness takes every distinct committed view the real run left behind (what survives a crash at any instant after that commit), rebuilds the real state "
+                      "machine on it and compares what it presents to its policy with the model's load of the same bytes (load after persist is the identity by theorem (2)).  The persist after a ping is compared by "
+                      "trace equality only.  Model = code is sampled on scripted runs.",
         "diff_meaning": "The bookkeeping monitor rejects the implementation's trace (code 2), or the storage / clock / policy-argument / event projection differs from the model's.",
-        "rule": "random scripted histories of check and ping outcomes without storage faults; restarts are exercised by C07/C18's stored values; distinct = distinct implementation trace; non-trivial = at least one request or completed check",
+        "rule": "random scripted histories of check and ping outcomes without storage faults, plus, for one history in five, a rebuild of the real state machine on each distinct committed storage view that history produced (crash injection; up to 4 per history); distinct = distinct implementation trace; non-trivial = at least one request or completed check",
         "assumptions": ["harness trait implementations follow the trait contracts", "Storage trait contract: writes cached until commit, commit atomic"],
         "trusted_base": COMMON_TB + ["modelled, not verified: state_machine.rs, update_check.rs, builder.rs, app_set.rs, common.rs"],
     },
